@@ -56,7 +56,7 @@ def write_files(directory: str, files: Dict[str, str]):
 
 
 def compile_link(directory: str, sources: List[str], exe: str, flavor: str = 'plain',
-                 extra: Optional[List[str]] = None, timeout: int = 300) -> Tuple[int, str]:
+                 extra: Optional[List[str]] = None, timeout: int = 900) -> Tuple[int, str]:
     cmd = FLAVORS[flavor] + EXTRA_FLAGS + (extra or []) + ['-I', directory, '-I', MOCK] + sources + \
         ['-o', exe]
     try:
@@ -68,7 +68,7 @@ def compile_link(directory: str, sources: List[str], exe: str, flavor: str = 'pl
 
 
 def syntax_only(directory: str, source: str, flavor: str = 'plain',
-                extra: Optional[List[str]] = None, timeout: int = 300) -> Tuple[int, str]:
+                extra: Optional[List[str]] = None, timeout: int = 900) -> Tuple[int, str]:
     cmd = FLAVORS[flavor] + ['-fsyntax-only'] + EXTRA_FLAGS + (extra or []) + ['-I', directory, '-I', MOCK,
                                                                  source]
     try:
